@@ -148,6 +148,7 @@ type Config struct {
 	SwitchNum, SwitchDen int // probability of switching away from the current goroutine when it is runnable
 	LockYieldNum         int // out of 100: probability that an uncontended lock acquisition is a scheduling point
 	PreemptDelayNum      int // out of 1000: probability that a yield point is preceded by a seeded stall
+	MaxStall             time.Duration // 0 = no cap on the stall table (largest entry 7 s)
 	LatencyScale         int // 0 = base latencies only
 	PCTDepth             int // >0: PCT scheduling with that many priority change points
 	PCTHorizon           int
